@@ -56,6 +56,7 @@ def main(argv):
                 # scratch directory, never to /verif/evidence
                 scratch = tempfile.mkdtemp(prefix='seeded_ev_')
                 env = dict(os.environ, VERIF_REPO=wt, PYTHONPATH=wt,
+                           VERIF_STOP_AT_FIRST='1',
                            VERIF_EVIDENCE_DIR=os.path.join(scratch, 'evidence'),
                            VERIF_REPLAY_DIR=os.path.join(scratch, 'replays'))
                 cmd = '/venv/bin/python -m dsim.check %s --tier %s --no-selftest' % (chk, tier)
